@@ -734,6 +734,11 @@ def run(ctx):
     else:
         ctx.fail("C11.R4", "inodes", gi.file, gi.node.lineno, gi.qual,
                  "socket inode collection changed (socket:[N] -> (pid, fd))")
+    # one descriptor vanishing (ENOENT / ESRCH on <pid>/fd/<n>) must not lose the
+    # whole holder: the clause that receives it skips that descriptor only
+    from .c03 import _r8 as _subobject_rule
+    _subobject_rule(ctx, repo, A, pm, rule="C11.R4", only={"NetConnections.get_proc_inodes"},
+                    floor=1)
     # ------------------------------------------------------------------- R5
     ctx.rule("C11.R5", "address text: for IPv4/IPv6 x little/big endian hosts the hex "
              "column is turned into network-order bytes by the byte permutation the "
